@@ -233,7 +233,7 @@ def decrypt(xml, key_idx):
     src = _tmp(xml)
     out = src + '.out'
     try:
-        rc, o, e = _tool(['--decrypt', '--privkey-pem', world.key(key_idx), '--id-attr:Id', 'EncryptedKey', '--output', out, src])
+        rc, o, e = _tool(['--decrypt', '--privkey-pem', world.key(key_idx), '--id-attr:ID', 'EncryptedKey', '--output', out, src])
         if rc != 0:
             return None
         with open(out, 'rb') as f:
